@@ -179,6 +179,12 @@ def c12_run(ctx):
         ctx.trace_validate("clienttxn-rt", "TestClientTxnRT", "TraceClientTxnRT.tla", "TraceClientTxnRT.cfg", n)
 
 
+def c08_run(ctx):
+    with_server_trace(core_run(["MC_relay", "MC_relayB"], ["GEN_relayA", "GEN_relayB", "GEN_relayD", "GEN_recycle"]))(ctx)
+    if not ctx.violations:   # the table invariants of the specification after histories of any length
+        ctx.apalache_inductive("ChanInd.tla")
+
+
 def c09_run(ctx):
     core_run(["MC_disp_serverudp", "MC_disp_serverstream", "MC_disp_client", "MC_framer"],
              ["GEN_disp_serverudp", "GEN_disp_serverstream", "GEN_disp_client", "GEN_framer", "GEN_tcpB", "GEN_auth"])(ctx)
@@ -252,8 +258,9 @@ PROPS = {
                 run=with_server_trace(core_run(["MC_relay", "MC_relayB", "MC_steps"], ["GEN_relayA", "GEN_relayB", "GEN_steps"])),
                 assumptions=BASE_ASSUME + ["instants at which a timer is due are explored only by the gated schedules of TurnServerSteps.tla (a refresh racing the pending expiry callback: known finding D14)"]),
     "C08": dict(title="channel bindings are a bijection inside 0x4000-0x7FFF", level="model_checking",
-                run=with_server_trace(core_run(["MC_relay", "MC_relayB"], ["GEN_relayA", "GEN_relayB", "GEN_relayD", "GEN_recycle"])),
-                assumptions=BASE_ASSUME),
+                run=c08_run,
+                assumptions=BASE_ASSUME + ["ChanInd.tla (Apalache): the table invariants of the specification -- channel bijection, range, nothing survives its allocation -- "
+                                           "are inductive for 3 clients x 4 numbers x 4 peers, i.e. hold after histories of any length (TLC's runs are depth-bounded)"]),
     "C09": dict(title="no input can crash, wedge or spin an endpoint", level="exploration",
                 run=c09_run,
                 assumptions=["Dispatch.tla is a decision table over message SHAPES (36 for the datagram listener, 13 for the stream listener, 22 for the client's HandleInbound) in three endpoint states; "
